@@ -101,6 +101,7 @@ theorem iterate_keeps_interior [Sqrt α] [FinTest α] (P : Prog α) (mufx : α) 
     · cases h
     · rename_i s1 hs1
       obtain ⟨g1, g2, g3⟩ := Gx_lt_h_invariant P par.beta hb0 hb1 x dx par.maxLs _ s1 hinit hs1
+      dsimp only at h
       split at h
       · cases h
       · rename_i s2 st2 hs2
@@ -135,42 +136,33 @@ theorem done_converged [Sqrt α] (P : Prog α) (par : Params α) (x : List α) (
       norm2 st.rprim < par.epsilon :=
   (converged_iff_done_test _ _ _ _ _).1 h
 
-/-- What `converged` out of the loop body means. The returned point passes `program_t::feasible`
-    (`‖A x − b‖₂ < ε₂`, `max(G x − h) < ε₂` on the normalised program) and the returned `eta`, `‖rdual‖₂`, `‖rprim‖₂` are
-    below `epsilon`; they are the residuals of the returned `(x', u', v')`, EXCEPT on one path of the code: when stage 2
-    runs out of trials and its last trial did not increase the residual, `x', u', v'` are the point the iteration started
-    from while `eta`, the residuals (and `fx`) are those of the last trial point `(x + s dx, u + s du, v + s dv)`
-    (solver.cpp:346-354: the state is not reverted). -/
+/-- What `converged` out of the loop body means: the returned point passes `program_t::feasible`
+    (`‖A x − b‖₂ < ε₂`, `max(G x − h) < ε₂` on the normalised program), the returned `eta`, `‖rdual‖₂`, `‖rprim‖₂` are
+    below `epsilon`, and they — like the reported `fx` — are those of the returned `(x', u', v')` on every path
+    (since the fix 51e9911 also when stage 2 runs out of trials: the state is reverted before `done`). -/
 theorem iterate_converged_sound [Sqrt α] [FinTest α] (P : Prog α) (mufx : α) (par : Params α)
     (x u v dx du dv x' u' v' : List α) (st stp st' : St α) (ok : Bool)
     (hst : st = update P mufx par.miu x u v stp)
     (h : iterate P mufx par x u v st ok dx du dv = .stop .converged x' u' v' st') :
     (feasible P par.eps2 x' = true ∧ st'.eta < par.epsilon ∧ norm2 st'.rdual < par.epsilon ∧
       norm2 st'.rprim < par.epsilon) ∧
-    ((∃ stq, st' = update P mufx par.miu x' u' v' stq) ∨
-     (x' = x ∧ u' = u ∧ v' = v ∧
-        ∃ s stq, st' = update P mufx par.miu (move x s dx) (move u s du) (move v s dv) stq)) := by
+    ∃ stq, st' = update P mufx par.miu x' u' v' stq := by
   unfold iterate at h
   split at h
   · simp only [Outcome.stop.injEq] at h
     obtain ⟨hd, rfl, rfl, rfl, rfl⟩ := h
-    exact ⟨done_converged P par x st hd, Or.inl ⟨stp, hst⟩⟩
+    exact ⟨done_converged P par x st hd, ⟨stp, hst⟩⟩
   · split at h
     · simp only [Outcome.stop.injEq] at h
       obtain ⟨hd, rfl, rfl, rfl, rfl⟩ := h
-      exact ⟨done_converged P par x st hd, Or.inl ⟨stp, hst⟩⟩
+      exact ⟨done_converged P par x st hd, ⟨stp, hst⟩⟩
     · rename_i s1 hs1
+      dsimp only at h
       split at h
       · rename_i stT hs2
         simp only [Outcome.stop.injEq] at h
         obtain ⟨hd, rfl, rfl, rfl, rfl⟩ := h
-        refine ⟨done_converged P par x _ hd, ?_⟩
-        unfold stage2Fail
-        split
-        · exact Or.inl ⟨stT, rfl⟩
-        · rcases stage2_none P mufx par.miu par.alpha par.beta x u v dx du dv _ par.maxLs s1 st stT hs2 with e | e
-          · exact Or.inl ⟨stp, by rw [e, hst]⟩
-          · exact Or.inr ⟨rfl, rfl, rfl, e⟩
+        exact ⟨done_converged P par x _ hd, ⟨stT, rfl⟩⟩
       · rename_i s2 st2 hs2
         obtain ⟨_, _, ⟨stq, hq⟩, _⟩ := stage2_spec' P mufx par.miu par.alpha par.beta x u v dx du dv _ par.maxLs s1 s2
           st st2 hs2
@@ -179,7 +171,7 @@ theorem iterate_converged_sound [Sqrt α] [FinTest α] (P : Prog α) (mufx : α)
         · split at h
           · simp only [Outcome.stop.injEq] at h
             obtain ⟨hd, rfl, rfl, rfl, rfl⟩ := h
-            exact ⟨done_converged P par _ st2 hd, Or.inl ⟨stq, hq⟩⟩
+            exact ⟨done_converged P par _ st2 hd, ⟨stq, hq⟩⟩
           · cases h
 
 /-- The equality-only path reports `converged` exactly when the residual is finite and the logged solution of the KKT
@@ -279,9 +271,9 @@ theorem restatement_equiv_perm_vars (P : Prog α) (wf : WF P) (idx : List Nat) (
       objective (permVars idx P) (pick 0 idx x) = objective P x :=
   perm_vars_equiv P wf idx hidx x hx
 
-/-! ### non-vacuity (over ℚ): `min ½x₀² + x₁  s.t.  x₀ + x₁ = 1,  −x₁ ≤ 0`, optimum `x* = (1, 0)`, `u* = 2`, `v* = −1` -/
+/-! ### non-vacuity (over ℚ): `min ½x₀² + 3x₁  s.t.  x₀ + x₁ = 1,  −x₁ ≤ 0`, optimum `x* = (1, 0)`, `u* = 2`, `v* = −1` -/
 
-def exP : Prog ℚ := ⟨[[1, 0], [0, 0]], [0, 1], [[1, 1]], [1], [[0, -1]], [0]⟩
+def exP : Prog ℚ := ⟨[[1, 0], [0, 0]], [0, 3], [[1, 1]], [1], [[0, -1]], [0]⟩
 
 example : WF exP := ⟨by decide, Or.inr rfl, by decide, by decide⟩
 
@@ -304,7 +296,7 @@ example : Convex exP := by
 example : (update exP 1 10 [1, 0] [2] [-1] ⟨0, 0, [], [], []⟩).rdual = [0, 0] ∧
     (update exP 1 10 [1, 0] [2] [-1] ⟨0, 0, [], [], []⟩).rprim = [0] ∧
     (update exP 1 10 [1, 0] [2] [-1] ⟨0, 0, [], [], []⟩).eta = 0 := by
-  norm_num [update, exP, gradObj, slack, mv, dot, vadd, vsub, tmv, axpy, zeros, Prog.n, Prog.m]
+  norm_num [update, exP, gradObj, slack, mv, dot, vadd, vsub, tmv, zeros, Prog.n, Prog.m, List.replicate_succ, axpy]
 
 /-- an interior point: stage 1 accepts, `make_smax` is the textbook ratio -/
 example : makeSmax (1000 : ℚ) [1, 2] [-2, 1] = 1 / 2 := by
